@@ -66,7 +66,7 @@ func candidates(h c09.HandlerDesc) []string {
 	for _, f := range formatters {
 		ff := c09.Formatter(f)
 		for _, ns := range []string{"A", "B", "", "X", "A.B", "a", "A.Foo"} {
-			for _, m := range []string{"Foo", "Bar", "Baz", "FooBar"} {
+			for _, m := range []string{"Foo", "Bar", "Baz", "FooBar", "Three"} {
 				set[ff(ns, m)] = true
 			}
 		}
@@ -98,6 +98,9 @@ type paramVariant struct {
 var variants = []paramVariant{
 	{`[%d]`, "one-int"}, {`[]`, "empty"}, {`[%d,1]`, "two"}, {`["s"]`, "one-str"}, {``, "absent"}, {`null`, "null"},
 	{`{"a":1}`, "object"}, {`[null]`, "one-null"}, {`[1.5]`, "one-frac"}, {`[%d,2,3]`, "three"},
+	// several positional params: every position mismatched on its own, and two at once
+	{`["s",%d,true]`, "three-fit"}, {`[5,%d,true]`, "three-bad-first"}, {`["s","x",true]`, "three-bad-middle"},
+	{`["s",%d,"no"]`, "three-bad-last"}, {`[5,"x",true]`, "three-bad-two"}, {`[null,%d,true]`, "three-null-first"},
 }
 
 func aliasTables(h c09.HandlerDesc) [][][2]string {
